@@ -257,7 +257,10 @@ def run(tier, seed, replay=None):
         return res.finish()
     if replay:
         case = json.load(open(replay)).get("case", "")
-        rc, out = sh("%s force | %s check" % (hbin, runner), stdin=("\n".join(header + [case]) + "\n").encode(), timeout=120)
+        if case.split("\t")[4:5] == ["FREE"]:      # a history under natural timing
+            rc, out = sh("%s free | %s check" % (hbin, runner), stdin=("\n".join(header + ["\t".join(case.split("\t")[:4])] * 3) + "\n").encode(), timeout=120)
+        else:
+            rc, out = sh("%s force | %s check" % (hbin, runner), stdin=("\n".join(header + [case]) + "\n").encode(), timeout=120)
         mm = parse_mismatch_lines(out)
         log("replay %s" % describe(case))
         for l in out.split("\n"):
